@@ -4,8 +4,8 @@
    arbitrary pure filter; PureCb covers Method::Empty, ForEach(recorder) and Filter(pure f).
    The generic theorems are stated for every worklist kind k <> KDfs (bfs and both pfs modes); the queue
    hypothesis of coq/proofs/Worklist.v is discharged by StdHeap.stdheap_qspec in SearchGlue.v. *)
-From Gdsl.Model Require Import Spec Callback PathApi.
-From Gdsl.Proofs Require Import Worklist Bfs SearchGlue PathApiProof.
+From Gdsl.Model Require Import Spec Callback PathApi SearchFind.
+From Gdsl.Proofs Require Import Worklist Bfs SearchGlue PathApiProof SearchFindProof.
 
 (* a returned path starts at the root, ends at the node carrying the target key, is made of accepted stored edges (with their stored values) joined end to start *)
 Theorem c04_path_sound :
@@ -67,7 +67,7 @@ Theorem c04_path_shortest :
 Proof. exact bfs_path_shortest. Qed.
 Print Assumptions c04_path_shortest.
 
-(* search() returns the target node in exactly the cases in which search_path() returns a path *)
+(* search() — the SEPARATELY transcribed find loops of the code (model/SearchFind.v: loop_*_find / recurse_*_find; for pfs `search_path().map(last_node)`) — returns the target node exactly when search_path() returns a path, and that node is where the path ends *)
 Theorem c04_search_agrees :
   forall (K V E : Type) (keqb : K -> K -> bool),
        KeqbSpec keqb ->
@@ -82,16 +82,29 @@ Theorem c04_search_agrees :
        k <> KDfs ->
        keyof h root <> Some t ->
        match snd (search_path keqb cb vleb k d fuel h c0 root (Some t) false) with
-       | RNone _ => snd (search_find keqb cb vleb k d fuel h c0 root (Some t)) = RNone E
+       | RNone _ => snd (search_find' keqb cb vleb k d fuel h c0 root (Some t)) = RNone E
        | RPath p =>
            exists (v : nat) (p0 : list (edge E)) (w : edge E),
-             snd (search_find keqb cb vleb k d fuel h c0 root (Some t)) = RNode E v /\
+             snd (search_find' keqb cb vleb k d fuel h c0 root (Some t)) = RNode E v /\
              p = p0 ++ [w] /\ edst w = v /\ keyof h v = Some t
-       | RFuel _ => snd (search_find keqb cb vleb k d fuel h c0 root (Some t)) = RFuel E
+       | RFuel _ => snd (search_find' keqb cb vleb k d fuel h c0 root (Some t)) = RFuel E
        | _ => False
        end.
-Proof. exact wlq_find_agrees. Qed.
+Proof. exact search_find'_agrees_bfs_pfs. Qed.
 Print Assumptions c04_search_agrees.
+
+(* for EVERY callback (no purity needed), heap, root, target and fuel: the find machine ends with the same verdict, the same heap, the same callback state (hence the same closure trace) and the same visited set as the path machine *)
+Theorem c04_find_loops_simulate_path_loops :
+  forall (K V E : Type) (keqb : K -> K -> bool) (CB : Type)
+         (cb : CB -> heap K V E -> edge E -> CB * heap K V E * bool) (vleb : V -> V -> bool) 
+         (k : kind) (d : dir) (fuel : nat) (h : heap K V E) (c : CB) (root : nat) 
+         (target : option K),
+       let x := search_find' keqb cb vleb k d fuel h c root target in
+       let y := run_search keqb cb vleb k d fuel h c root target false in
+       snd x = res_of_status E (snd y) /\
+       s_heap (fst x) = s_heap (fst y) /\ s_cb (fst x) = s_cb (fst y) /\ s_vis (fst x) = s_vis (fst y).
+Proof. exact find_machine_agrees. Qed.
+Print Assumptions c04_find_loops_simulate_path_loops.
 
 (* fuel_bound suffices: the out-of-fuel outcome cannot occur *)
 Theorem c04_terminates :
